@@ -726,6 +726,11 @@ def main():
         for v in r["viol"]:
             run.violation(classify(v, item), {"item": item, "violation": v})
     run.extra["fields_in_schema"] = len(fields)
+    if run.tier == "thorough":
+        # one more workload for the contracts: the repository's own test-suite (hand-written inputs)
+        from vf import repo_tests
+
+        repo_tests.attach(run, PID)
     run.finish(floors={"evaluations": 150, "distinct_nontrivial": 150, "options_exercised": len(fields) - 2,
                        "contract_evals_convert_setting": 200, "ford_initialize_runs": 1500})
 
